@@ -24,7 +24,7 @@ def tree1Of (s : State) (b : Header) (tree0 : Tree) : Tree :=
 /-- `ApplyBlock` for a node without a validator key and a block without sup links -/
 def applyBlockNF (s : State) (b : Header) : State × Bool × List SupLink :=
   match s.tree.find (byHash b.id) with
-  | some _ => (s, true, b.sup)
+  | some tn => (s, true, mergeSup b.sup tn.ckpt.sup)
   | none =>
     match s.ensureNode s.fuel s.tree b.parent with
     | none => (s, false, b.sup)
